@@ -96,7 +96,7 @@ func proves(w wire, c *vkit.ClientSpec) bool {
 		}
 		// the secret the storage holds and accepts for this client: a genuine credential of c, presented by a method c is
 		// not registered for (callerIs never calls that clean)
-		return false
+		return c.Secret != "" && ((w.hasBasic && w.basicID == c.ID && w.basicSec == c.Secret) || (w.bodyID == c.ID && w.bodySec == c.Secret))
 	case "none":
 		return w.claimed()[c.ID]
 	}
